@@ -116,6 +116,11 @@ theorem execQueue_length (conn : Nat) (q : List Queued) :
     | cons name args =>
       unfold execQueue at hnc ⊢
       simp only [ha] at hnc ⊢
+      by_cases hu : (unmodelled.any fun x => sb x == lowerB name) = true
+      · simp only [hu, if_true] at hnc ⊢
+        rw [ih _ _ _ _ _ _ (fun y hy => hne y (by simp [hy])) hnc]
+        simp only [List.length_cons]; omega
+      simp only [hu, Bool.false_eq_true, if_false] at hnc ⊢
       cases hp : parseCmd name args with
       | none =>
         simp only [hp] at hnc ⊢
